@@ -772,7 +772,9 @@ class E2EModelStream(Stream):
             "binaries; .license siblings: full / partial / empty / a directory / a dangling symlink; excluded names and directories, empty "
             "files, symlinks; nested REUSE.toml files with 1-4 tables, 10 glob shapes relative to their own directory, the three "
             "precedences, string / list / empty-string copyright values, empty / broken / symlinked / excluded REUSE.toml; .reuse/dep5 with "
-            "1-3 paragraphs; LICENSES/ with sub-directories, hidden files and directories, .license companions and 7 kinds of disturbance) "
+            "1-3 paragraphs; one project in five uses an ill-formed LicenseRef- look-alike (underscore, non-ASCII, colon, empty tail) like any "
+            "other identifier, its text provided three times out of four; LICENSES/ with sub-directories, hidden files and directories, "
+            ".license companions and 7 kinds of disturbance) "
             "written to disk for the real `reuse lint --json` and serialised for the composed Lean model (driver op `e2e`, two rounds: "
             "license-expression, tomlkit, python-debian and binaryornot answer as oracle tables); compared: status, file list, per-file "
             "copyright lines / expressions with their source, the eight collections, used licences, verdict and exit status; oracle = "
